@@ -31,6 +31,20 @@ theorem tangent_on_circle (c : Circle ℝ) (p t0 t1 : V2 ℝ) (h : GenRs.Circle2
     V2.normSq (V2.sub t0 c.c) = c.r * c.r ∧ V2.normSq (V2.sub t1 c.c) = c.r * c.r := by
   rw [C11T.tangent_points_to_eq] at h; exact C11.tangent_on_circle c p t0 t1 h
 
+/-- there is a tangent from a point exactly when the point is OUTSIDE the circle: a point on the perimeter (distance to
+    the centre equal to the radius) or inside it gets none -/
+theorem tangent_none_iff_not_outside (c : Circle ℝ) (p : V2 ℝ) :
+    GenRs.Circle2_tangent_points_to c p = none ↔ dist2 c.c p ≤ c.r := by
+  unfold GenRs.Circle2_tangent_points_to
+  simp only []
+  constructor
+  · intro h
+    by_contra hn
+    rw [if_neg hn] at h
+    exact absurd h (by simp)
+  · intro h
+    rw [if_pos h]
+
 /-- the circle through three points is equidistant from them, with that distance as radius; collinear triples
     (relative to the leg lengths) are rejected -/
 theorem from_3_points_equidistant (p0 p1 p2 : V2 ℝ) (c : Circle ℝ) (h : GenRs.Circle2_from_3_points p0 p1 p2 = some c) :
